@@ -26,7 +26,7 @@ import (
 
 func TestMain(m *testing.M) { kit.Main(m) }
 
-const rule = "(races, -race build) generated applications (node-family components, 0-3 user definition scanners each rejecting 0-3 drawn components under drawn yields, 0-4 closers some failing) are started and shut down under GOMAXPROCS 2/4/16; the oracle is the Go race detector; (atomicity) histories of Load/Store/LoadOrStore/LoadOrStoreFn/Delete on sync2.Map and Put/Exists/Remove on the concurrent sets over 2 keys - with the harness owning the schedule through the LoadOrStoreFn callback (caller 1 parked inside f while caller 2 runs complete operations) and with 3-6 free-running goroutines - are checked for linearizability against the sequential map/set model (porcupine); the whole set interface (initial elements, PutAll/RemoveAll/ExistsAny/ExistsAll/Length/ToArray/ForEach) is run one operation at a time against a plain map; non-trivial = >=2 components rejected by one scanner or a failing closer (races), >=2 overlapping operations on one key (atomicity); distinct by scenario / history; since rounds 7/8 also census scanners reading the other definitions' properties, tag texts new to the process on several components, and the sequential reads at the end of every set history"
+const rule = "(races, -race build) generated applications (node-family components, 0-3 user definition scanners each rejecting 0-3 drawn components under drawn yields, 0-4 closers some failing) are started and shut down under GOMAXPROCS 2/4/16; the oracle is the Go race detector; (atomicity) histories of Load/Store/LoadOrStore/LoadOrStoreFn/Delete on sync2.Map and Put/Exists/Remove on the concurrent sets over 2 keys - with the harness owning the schedule through the LoadOrStoreFn callback (caller 1 parked inside f while caller 2 runs complete operations) and with 3-6 free-running goroutines - are checked for linearizability against the sequential map/set model (porcupine); the whole set interface (initial elements, PutAll/RemoveAll/ExistsAny/ExistsAll/Length/ToArray/ForEach) is run one operation at a time against a plain map; non-trivial = >=2 components rejected by one scanner or a failing closer (races), >=2 overlapping operations on one key (atomicity); distinct by scenario / history; since rounds 7/8 also census scanners reading the other definitions' properties, tag texts new to the process on several components, and the sequential reads at the end of every set history; the embeddable tag scanner with default settings"
 
 // ---------------------------------------------------------------------------------------------------
 // races
